@@ -1,10 +1,12 @@
 import CJ.Drv.Loop
 import CJ.Drv.Registry
 import CJ.Drv.RegistryConc
+import CJ.Drv.PipelineMsg
 /-! Driver for C09: the sequential registry model and its concurrent extension. -/
 open CJ.Drv
 
 def main : IO Unit := runDriver fun
   | "registry" :: args => Registry.handle args
   | "conc" :: args => RegistryConc.handle args
+  | "pipe" :: args => PipelineMsg.handle args
   | _ => none
